@@ -103,8 +103,7 @@ def doPage (ps cap pop sched fail cbfail : String) : String :=
     let failF := fun k => fl == some k
     -- the table stops changing after the schedule, so this fuel always suffices
     -- (C06_paging_progress); more tables than that cannot be seen by the loop
-    let maxRows := (tables db0 sch).foldl (fun m t => max m t.length) db0.length
-    let fuel := sch.length + 3 * (maxRows + sch.length) + 8
+    let fuel := sch.length + 3 * (maxRows db0 sch + sch.length) + 8
     let r := scan eff env failF cbf fuel
     "|".intercalate (r.st.log.reverse.map (showEv limit)) ++ "=" ++ showOutcome r.out
   | _, _, _, _, _, _ => "bad-op"
